@@ -323,4 +323,15 @@ pub fn gen_witnesses(_tier: &str, _seed: u64, emit: &mut dyn FnMut(String)) {
       let pmt = section(2, 1, 0, true, &body); assert_eq!(pmt.len(), 365);
       m.psi(0, &pat, 0, 0, &mut rng); m.psi_packed(0x100, &[pmt.clone(), pmt.clone()], &mut rng); m.psi(0x100, &pmt, 0, 0, &mut rng);
       emit(format!("{} #W=F9", dmx_case(0, "", &[m.bytes()]))); }
+    // F10: programs 1 and 2 announce the SAME program-map PID; their maps carry different version_numbers: every arrival
+    // differs from the version remembered for that PID and is applied again, in the steady state too
+    { let pat = section(0, 1, 0, true, &[0, 1, 0xE1, 0x00, 0, 2, 0xE1, 0x00]);
+      let pmt_a = section(2, 1, 0, true, &[0xE1, 0x01, 0xF0, 0, 0x1b, 0xE1, 0x01, 0xF0, 0]);
+      let pmt_b = section(2, 2, 1, true, &[0xE1, 0x02, 0xF0, 0, 0x0f, 0xE1, 0x02, 0xF0, 0]);
+      let mut m = Mux::new();
+      m.psi(0, &pat, 0, 0, &mut rng); m.psi(0x100, &pmt_a, 0, 0, &mut rng); m.psi(0x100, &pmt_b, 0, 0, &mut rng);
+      probe(&mut m, 0x101, &mut rng); probe(&mut m, 0x102, &mut rng);
+      let warm = m.bytes(); m.pkts.clear();
+      m.psi(0x100, &pmt_a, 0, 0, &mut rng); m.psi(0x100, &pmt_b, 0, 0, &mut rng);
+      emit(format!("ALLOC {} {} #W=F10", hex(&warm), hex(&m.bytes()))); }
 }
